@@ -2034,6 +2034,12 @@ def removeslash(
             if self.request.method in ("GET", "HEAD"):
                 uri = self.request.path.rstrip("/")
                 if uri:  # don't try to redirect '/' to ''
+                    if uri.startswith("//"):
+                        # A redirect with two initial slashes is a "protocol-relative"
+                        # URL, i.e. an open redirect (see also StaticFileHandler).
+                        raise HTTPError(
+                            403, "cannot redirect path with two initial slashes"
+                        )
                     if self.request.query:
                         uri += "?" + self.request.query
                     self.redirect(uri, permanent=True)
@@ -2061,6 +2067,12 @@ def addslash(
     ) -> Awaitable[None] | None:
         if not self.request.path.endswith("/"):
             if self.request.method in ("GET", "HEAD"):
+                if self.request.path.startswith("//"):
+                    # A redirect with two initial slashes is a "protocol-relative"
+                    # URL, i.e. an open redirect (see also StaticFileHandler).
+                    raise HTTPError(
+                        403, "cannot redirect path with two initial slashes"
+                    )
                 uri = self.request.path + "/"
                 if self.request.query:
                     uri += "?" + self.request.query
